@@ -391,6 +391,20 @@ def check_proofs(pid, tier="quick"):
                 for k, g in enumerate(m.groups()[1:]):
                     if g.strip() != "<none>":
                         res["problems"].append("coqchk reports relaxed kernel checks: " + g.strip()[:200])
+    # the table-like parts of the current source (type names, command / application tables, frame limit, header length,
+    # epoch offset) translated to Coq and proved to be the model's (lib/srctie.py); shapes the translator does not
+    # recognise are reported, not alarmed on
+    try:
+        import srctie
+        tie = srctie.check(pid, REPO, COQ, os.path.join(CACHE, "srctie" + os.environ.get("VERIF_LANE", "")))
+        res["source_tie"] = dict(status=tie["status"], tied=tie["tied"], not_recognised=tie["not_recognised"])
+        res["obligations"] += len(tie["tied"])
+        res["theorems"] += ["source_tie:" + t for t in tie["tied"]]
+        if tie["status"] == "disagree":
+            res["problems"].append("the tables / constants read out of the current source (" + ", ".join(tie["tied"]) + ") are not the model's: the generated "
+                                   "file lib/srctie.py wrote does not check: " + tie["detail"][-700:])
+    except Exception as e:           # the translator is an extra tie: its own failure is not a verdict
+        res["source_tie"] = dict(status="translator-error", detail=str(e)[:300])
     res["discharged"] = res["obligations"] if not res["problems"] else 0
     return res
 
@@ -419,6 +433,7 @@ TRUSTED_BASE = [
     "hand-written OCaml driver ocaml/driver.ml (parsing/printing of cases)",
     "Rust harness harness/ (runs the implementation through its public API + verif-hooks)",
     "Python orchestrator lib/ (generators, canonicalisation, comparison)",
+    "lib/srctie.py: regular-expression translator of the source's tables/constants into Coq (an extra tie; unrecognised shapes are skipped)",
     "rustc/std, chrono, num-derive, serde-xml-rs, tokio, native-tls/OpenSSL: modelled or exercised, not verified",
 ]
 
@@ -514,6 +529,7 @@ class Check:
                 trusted_base=TRUSTED_BASE, theorems=pr["theorems"], axioms=pr["axioms"],
                 proof_problems=pr["problems"],
                 coqchk=pr.get("coqchk", "not run (thorough tier only)"), coqchk_axioms=pr.get("coqchk_axioms", []),
+                source_tie=pr.get("source_tie", dict(status="not run")),
                 evaluations=self.evaluations, distinct_nontrivial=len(self.nontrivial_hashes),
                 distinct=len(self.hashes), rule=self.rule,
                 traces_validated_against_impl=self.validated,
